@@ -109,9 +109,10 @@ void finish_run()
 static bool is_runnable(Task *t)
 {
 	if (t->st == T_RUNNABLE || t->st == T_NEW) return true;
+	// no side effects: many candidates are examined, only one is switched to
 	if (t->st == T_BLOCKED) {
-		if (t->pred && t->pred(t->parg)) { t->st = T_RUNNABLE; t->timed_out = false; return true; }
-		if (t->deadline >= 0 && t->deadline <= g_now) { t->st = T_RUNNABLE; t->timed_out = true; return true; }
+		if (t->pred && t->pred(t->parg)) return true;
+		if (t->deadline >= 0 && t->deadline <= g_now) return true;
 	}
 	return false;
 }
@@ -458,8 +459,10 @@ int block_until(pred_fn pred, void *arg, int64_t deadline_ns, uint32_t site)
 	Task *t = tl_task;
 	if (!t || !g_active) return pred(arg) ? 0 : 1;
 	if (g_teardown || t->kill_req) task_exit_now();
-	if (pred(arg)) { yield(Y_CALL, site); return 0; }
-	if (deadline_ns >= 0 && deadline_ns <= g_now) { yield(Y_CALL, site); return 1; }
+	// the call itself is a preemption point; the condition must hold when the caller resumes, not before
+	yield(Y_CALL, site);
+	if (pred(arg)) return 0;
+	if (deadline_ns >= 0 && deadline_ns <= g_now) return 1;
 	step_tick(t, Y_BLOCK, site);
 	t->st = T_BLOCKED;
 	t->pred = pred; t->parg = arg; t->deadline = deadline_ns; t->timed_out = false;
@@ -471,9 +474,12 @@ int block_until(pred_fn pred, void *arg, int64_t deadline_ns, uint32_t site)
 		task_exit_now();
 	}
 	if (to != t) switch_to(t, to, site);
+	// a picked task resumes at once (nobody runs between the pick and here), so the reason it was picked still holds
 	t->st = T_RUNNABLE;
+	bool ok = pred(arg);
 	t->pred = NULL;
-	return t->timed_out ? 1 : 0;
+	t->timed_out = !ok;
+	return ok ? 0 : 1;
 }
 
 void (*g_fault_counter)(int kind);
